@@ -84,6 +84,34 @@ theorem expression_is_rendering (f : Nat) (ts : List Token) (e : Expr) (r : List
     ∃ pre, ts = pre ++ r ∧ pre.map rtok = rExpr e :=
   (soundE f).asg ts e r hw h
 
+open Grammar in
+/-- **end to end**: whenever a text is accepted — the scanner and the parser report nothing — its token
+    sequence is the grammar's rendering of the returned tree followed by the single end-of-input token -/
+theorem accepted_text_is_rendering (lm : Char → Bool) (hlm : lm '\n' = false) (src : List Char)
+    (toks : List Token) (p : List Stmt) (r : List Token) (f : Nat)
+    (hs : Lexer.scan lm src = some (toks, [])) (hp : program f toks = .ok p r []) :
+    ∃ pre e, toks = pre ++ [e] ∧ e.tt = .EOF ∧ pre.map rtok = rStmts p := by
+  have hwf : ∀ t ∈ toks, TokWf t := fun t ht => C09.scan_tokens_litOk lm hlm src toks [] hs t ht
+  obtain ⟨pre, hsplit, hren, e, r', hr, he⟩ := program_sound f toks p r hwf hp
+  obtain ⟨body, hbody, hne⟩ := C09.single_eof_last lm hlm src toks [] hs
+  subst hr
+  have key : r' = [] := by
+    rw [hsplit] at hbody
+    rcases List.append_eq_append_iff.mp hbody with ⟨a', h1, h2⟩ | ⟨c', h1, h2⟩
+    · cases a' with
+      | nil => simp at h2; exact h2.2
+      | cons x a'' =>
+        simp only [List.cons_append, List.cons.injEq] at h2
+        obtain ⟨rfl, _⟩ := h2
+        exact absurd he (hne _ (by rw [h1]; simp))
+    · cases c' with
+      | nil => simp at h2; exact h2.2.symm ▸ rfl
+      | cons x c'' =>
+        have := congrArg List.length h2
+        simp at this
+  subst key
+  exact ⟨pre, e, hsplit, he, hren⟩
+
 /-- totality of the lexer half of the front end: every text is tokenised (see C09.scan_total) -/
 theorem lexing_total (lm : Char → Bool) (hlm : lm '\n' = false) (src : List Char) :
     ∃ toks ds, Lexer.scan lm src = some (toks, ds) := C09.scan_total lm hlm src
